@@ -10,6 +10,7 @@ IMPORTS = ("From Coq Require Import ZArith List Bool.\n"
 CTYPE = "Z * (Z * Z) * (Z * Z * list ev * bool)"
 AGREE = ("  let '(k, (l, d), (seq0, req0, evs, all_ok)) := c in\n"
          "  if k =? 0 then go_renewalDelay l =? d\n"
+         "  else if k =? 2 then go_tokenLifetime seq0 req0 =? l\n"
          "  else match run evs (init seq0 req0) with\n"
          "       | Some s => Bool.eqb (tokens_monotone_rev (wire_rev s)) all_ok\n"
          "       | None => false end")
@@ -76,6 +77,10 @@ def run(ctx):
                    {"observation": d}, "uasc.VerifRenewalDelay(%d) (schedharness c16 delays)" % L)
     # oracle (2): live renewals
     for lv in lives:
+        if lv.get("token_lifetime_ns") is not None and lv["token_lifetime_ns"] != 1000000 * min(lv["requested_ms"], lv["revised_ms"]):
+            report("token-lifetime-not-min-of-requested-and-granted",
+                   "requested %d ms, server granted %d ms: the client uses a token lifetime of %.0f ms" % (lv["requested_ms"], lv["revised_ms"], lv["token_lifetime_ns"] / 1e6),
+                   {"observation": lv}, "schedharness c16 revise (scripted server revising the lifetime)")
         L = float(lv["lifetime_ms"])
         t = lv["opn_at_ms"]
         gaps = [t[i + 1] - t[i] for i in range(len(t) - 1)]
@@ -111,13 +116,17 @@ def run(ctx):
         for c in signs:
             all_ok = all(v == "ok" for v in c["results"].values()) and not c.get("server_errors")
             terms.append("(1, (0, 0), (%d, %d, [%s], %s))" % (c["seq0"], c["req0"], "; ".join(c11.ev(e) for e in c["events"]), c11.b(all_ok)))
+        # kind 2: (requested, revised) -> token lifetime the client really uses (fields reused: seq0 = requested, req0 = revised)
+        lsel = [lv for lv in lives if lv.get("token_lifetime_ns") is not None]
+        for lv in lsel:
+            terms.append("(2, (%d, 0), (%d, %d, [], true))" % (lv["token_lifetime_ns"], lv["requested_ms"], lv["revised_ms"]))
         okc, idx, clog = ctx.eval_cases(IMPORTS, CTYPE, terms, AGREE, shard=800)
         if not okc:
             corr_ok = False
             detail["cases"] = clog[-1500:]
         elif idx:
             corr_ok = False
-            allc = delays + signs
+            allc = delays + signs + lsel
             mism = [allc[i] for i in idx[:5]]
             detail["model_vs_impl_mismatches"] = mism
             if new == 0:
@@ -130,7 +139,7 @@ def run(ctx):
     ctx.coverage.update({
         "evaluations": len(delays) + len(signs) + len(lives),
         "distinct_nontrivial": len({d["lifetime_ns"] for d in delays}) + len(signs) + len(lives),
-        "rule": "renewal delay of the real code (uasc.renewalDelay via hook) for boundary lifetimes (1 ms .. 2^32-1 ms, the old truncation boundaries 1.333 s / 2 s / 2.667 s / 4 s, odd nanosecond values) + seeded random lifetimes, compared with go_renewalDelay inside Coq; live channels with lifetimes 400 ms and 1000 ms renewing for 1.9 s under a continuous request load, and with the server's clock 500 ms ahead / 400 ms behind (createdAt shifted, lifetime 1000 ms); the former renewal-window schedule (the renewal is now held back) and a renewal between two requests forced on a Basic256Sha256/Sign channel",
+        "rule": "renewal delay of the real code (uasc.renewalDelay via hook) for boundary lifetimes (1 ms .. 2^32-1 ms, the old truncation boundaries 1.333 s / 2 s / 2.667 s / 4 s, odd nanosecond values) + seeded random lifetimes, compared with go_renewalDelay inside Coq; live channels with lifetimes 400 ms and 1000 ms renewing for 1.9 s under a continuous request load, and with the server's clock 500 ms ahead / 400 ms behind (createdAt shifted, lifetime 1000 ms), and behind a server that revises the requested lifetime down (60 s -> 1 s) and up (1 s -> 4 s); the former renewal-window schedule (the renewal is now held back) and a renewal between two requests forced on a Basic256Sha256/Sign channel",
         "samples": delays[:2] + [{"live": lv["lifetime_ms"], "opn_at_ms": lv["opn_at_ms"]} for lv in lives] + [{"scenario": c["scenario"], "results": c["results"], "server_errors": c.get("server_errors")} for c in signs],
         "renewal_gaps_ms": gaps_all,
         "live_runs_overloaded": [lv["lifetime_ms"] for lv in lives if lv.get("stall_ms", 0.0) > 40.0],
